@@ -1,5 +1,5 @@
 (* C09 — failure contract of the Readers. *)
-From V Require Import Base.Prelude Base.Prog Base.ProgThms Flate.Spec Flate.Thms XFlate.Reader XFlate.Thms Life.ReadLoop Flate.Safe Flate.Fuel.
+From V Require Import Base.Prelude Base.Prog Base.ProgThms Flate.Spec Flate.Thms XFlate.Reader XFlate.Thms Life.ReadLoop Flate.Safe Flate.Fuel Brotli.Spec Brotli.Safe Brotli.Fuel Bzip2.Common Bzip2.SpecR Bzip2.Safe.
 
 (* the error a Read reports is the decoder's own outcome (wrapped by the
    package), reported only when everything decoded has been delivered *)
@@ -62,3 +62,27 @@ Theorem flate_error_classes : forall input,
   end.
 Proof. exact inflate_total. Qed.
 Print Assumptions flate_error_classes.
+
+(* TOTALITY of the RFC 7932 decoder model, for every static dictionary and every input:
+   success, UnexpectedEOF or Corrupted - never a panic (window copy out of range), never an
+   exhausted loop budget. The command loop needs a real argument: a command may consume no
+   input bit at all, progress then lies in the bytes it produces, and a dictionary word can
+   be empty only for transforms that a zero-bit distance cannot reach (invariant: the last
+   distances never exceed max 16 (min window bytes_produced)). *)
+Theorem brotli_error_classes : forall dict input,
+  match br_err (brotli_decode dict input) with
+  | None => True
+  | Some e => e = EUEOF \/ e = ECorrupted
+  end.
+Proof. exact brotli_decode_total. Qed.
+Print Assumptions brotli_error_classes.
+
+(* TOTALITY of the bzip2 decoder model (libbzip2 port): on every input success,
+   UnexpectedEOF, Corrupted or Deprecated (bzip1 header, block randomisation) *)
+Theorem bzip2_error_classes : forall input,
+  match bz_err (bzip2_decode input) with
+  | None => True
+  | Some e => e = EUEOF \/ e = ECorrupted \/ e = EDeprecated
+  end.
+Proof. exact bzip2_decode_total. Qed.
+Print Assumptions bzip2_error_classes.
